@@ -57,7 +57,16 @@ func newReq(src int) *http.Request {
 
 // scenario: one thread per entry of sources; panics[i] makes thread i's handler panic.
 func scenario(prop string, limit int64, sources []int, panics []bool, bound int, verbose bool) *sched.Scenario {
+	return scenarioW(prop, limit, sources, panics, bound, verbose, false)
+}
+
+// lateWrap: the limiter is built without a handler (two-phase construction), serves two requests in that state -
+// they abort - and only then gets its handler through Wrap: aborted exchanges hold no slot.
+func scenarioW(prop string, limit int64, sources []int, panics []bool, bound int, verbose, lateWrap bool) *sched.Scenario {
 	name := fmt.Sprintf("connlimit/limit=%d/sources=%v/panics=%v/bound=%d/verbose=%v", limit, sources, panics, bound, verbose)
+	if lateWrap {
+		name += "/handler-bound-late"
+	}
 	sc := &sched.Scenario{Name: name, Bound: bound, Info: map[string]any{"limit": limit, "sources": sources, "panics": panics}}
 	sc.New = func() *sched.Instance {
 		w := &world{prop: prop, limit: limit, sources: sources, panics: panics, status: make([]int, len(sources))}
@@ -77,9 +86,22 @@ func scenario(prop string, limit int64, sources []int, panics []bool, bound int,
 		if verbose {
 			opts = append(opts, connlimit.Verbose(true), connlimit.Logger(lib.FormatLogger{}))
 		}
-		cl, err := connlimit.New(handler, extractor(), limit, opts...)
+		var first http.Handler = handler
+		if lateWrap {
+			first = nil
+		}
+		cl, err := connlimit.New(first, extractor(), limit, opts...)
 		if err != nil {
 			panic(err)
+		}
+		if lateWrap {
+			for k := 0; k < 2; k++ {
+				func() {
+					defer func() { recover() }()
+					cl.ServeHTTP(httptest.NewRecorder(), newReq(0))
+				}()
+			}
+			cl.Wrap(handler)
 		}
 		w.cl = cl
 		for i := range sources {
@@ -203,6 +225,9 @@ func scenariosFor(prop string, nthreads, bound int) []*sched.Scenario {
 					p[i] = mask&(1<<i) != 0
 				}
 				out = append(out, scenario(prop, limit, a, p, bound, false))
+				if mask == 0 {
+					out = append(out, scenarioW(prop, limit, a, p, bound, false, true))
+				}
 				if mask != 0 && mask&(mask-1) == 0 || mask == 1<<nthreads-1 {
 					// non-default options (verbose logging through a formatting logger): one panic / all panic patterns
 					out = append(out, scenario(prop, limit, a, p, bound, true))
